@@ -122,6 +122,15 @@ class Alg:
         return self.simplify(a - b).is_zero()
 
 
+class NeedSplit(Exception):
+    """The value depends on a run-time flag the algebra cannot see (e.g. the `lower` flag of a
+    triangular factor handed to LAPACK): the caller re-evaluates under each value of the flag."""
+
+    def __init__(self, key):
+        super().__init__(key)
+        self.key = key
+
+
 def _names(e) -> set:
     return {n.id for n in ast.walk(e) if isinstance(n, ast.Name)}
 
@@ -303,6 +312,9 @@ class MatEval:
             if e.attr == "array":
                 g = self.k.resolve("array")
                 return Val("mat", self.attrs["<den>"])
+            if e.attr == "inv" and ("<inv>" in self.attrs or self.attrs.get("<use-inv>")):
+                # the inverse of the matrix itself (its construction is C10's obligation)
+                return Val("mat", self.attrs["<inv>"]) if "<inv>" in self.attrs else Val("mat", A.inv(self.attrs["<den>"]))
             if e.attr == "shape":
                 return Val("other", "shape")
             g = self.k.resolve(e.attr)
@@ -413,6 +425,11 @@ class MatEval:
             return self.ev(f, e.args[0], env)
         if cn in ("np.identity", "np.eye"):
             return Val("mat", A.ident())
+        if cn in ("np.outer",) and len(e.args) == 2:
+            # outer product of two (column) vectors: a b^T
+            a = self._mat(f, self.ev(f, e.args[0], env))
+            b = self._mat(f, self.ev(f, e.args[1], env))
+            return Val("mat", A.mul(a, A.T(b)))
         if cn in ("np.diag",) and len(e.args) == 1:
             v = self.ev(f, e.args[0], env)
             if v.kind == "mat" and v.diagvec:
@@ -424,6 +441,22 @@ class MatEval:
             tr = trans is not None and not (isinstance(trans, ast.Constant) and trans.value in (0, "N"))
             ia = A.inv(a)
             return Val("mat", A.mul(A.T(ia) if tr else ia, b))
+        if cn in ("sla.cho_solve", "scipy.linalg.cho_solve", "cho_solve"):
+            # SciPy contract: cho_solve((c, lower), b) solves A x = b with A = c c^T if lower else c^T c
+            fac = e.args[0]
+            if not (isinstance(fac, ast.Tuple) and len(fac.elts) == 2):
+                raise AnalysisError(f"{f.qualname}: cho_solve with a non-literal (c, lower) pair")
+            c = self._mat(f, self.ev(f, fac.elts[0], env))
+            b = self._mat(f, self.ev(f, e.args[1], env))
+            flag = fac.elts[1]
+            if isinstance(flag, ast.Constant) and isinstance(flag.value, bool):
+                lower = flag.value
+            elif "cho_lower" in self.assume:
+                lower = self.assume["cho_lower"]
+            else:
+                raise NeedSplit("cho_lower")
+            a = A.mul(c, A.T(c)) if lower else A.mul(A.T(c), c)
+            return Val("mat", A.mul(A.inv(a), b))
         if cn == "sla.lu_solve":
             # contract: the factors belong to Lm with  <array> = Lm  (flag False)  or  Lm^T  (flag True)
             lm = self.attrs.get("<lu_matrix>")
